@@ -362,13 +362,12 @@ fn c12_bitand_universe6() {
     kani::cover!(ma.count_ones() == 3 && mb.count_ones() == 3 && ma & mb != 0 && ma != mb, "3 vs 3 partial overlap");
 }
 
-/// `a | id` and `&a + id` : union with a single (arbitrary u32) id
-#[kani::proof]
-#[kani::unwind(8)]
-fn c12_add_single_id() {
-    let u = universe::<4>();
+/// `a | id`, `&a + id`, `a + id` : union with a single (arbitrary u32) id, `a` = any subset of an
+/// ascending symbolic universe of U ids
+fn add_single_id<const U: usize>() {
+    let u = universe::<U>();
     let ma: u8 = kani::any();
-    kani::assume(ma <= 15);
+    kani::assume((ma as u16) < (1 << U));
     let a = subset(&u, ma);
     let x: u32 = kani::any();
     let r1 = &a | id(x);
@@ -379,7 +378,7 @@ fn c12_add_single_id() {
         assert!(r.contains(&id(x)));
         let mut was = false;
         let mut i = 0;
-        while i < 4 {
+        while i < U {
             let bit = ma >> i & 1 == 1;
             if u[i] == x {
                 if bit {
@@ -394,8 +393,19 @@ fn c12_add_single_id() {
     }
     // operand unchanged
     assert_is_subset(&a, &u, ma);
-    kani::cover!(ma == 15 && x > u[1] && x < u[2], "new id lands in the middle");
+    kani::cover!(ma == ((1u16 << U) - 1) as u8 && x > u[0] && x < u[U - 1], "new id lands inside a full group");
     kani::cover!(ma & 1 == 1 && x == u[0], "id already present");
+}
+
+#[kani::proof]
+#[kani::unwind(8)]
+fn c12_add_single_id_u3() {
+    add_single_id::<3>();
+}
+#[kani::proof]
+#[kani::unwind(8)]
+fn c12_add_single_id() {
+    add_single_id::<4>();
 }
 
 /// owned-operand impls delegate to the by-reference ones
